@@ -131,3 +131,38 @@ PROPS["C07"] = {
     "assumptions": [A_BT, A_DUMMY],
     "not_decided": [],
 }
+
+DATA_R = "shuttle-engine/src/scheduler/data/random.rs"
+DATA_F = "shuttle-engine/src/scheduler/data/fixed.rs"
+BOUND_SEEDS = "seeds in {0, 1, 0x12345678, 2^64-1} (equivalence of two copies of rand_pcg seeding is beyond SAT; SMT2 back end crashes; provided trait methods cannot be stubbed)"
+DATA = {
+    "init": Kb("C10.data.initialize_reinitialize", "c10_data_initialize_reinitialize",
+               "initialize(s0).rng == seed_from_u64(s0); first reinitialize returns s0 and rng' == seed_from_u64(s0)",
+               [DATA_R + "::RandomDataSource::initialize", DATA_R + "::RandomDataSource::reinitialize"], BOUND_SEEDS),
+    "chain": Kb("C10.data.reinitialize_chain", "c10_data_reinitialize_chain",
+                "reinitialize (next_seed == None) returns s == rng.next_u64() and rng' == seed_from_u64(s)",
+                [DATA_R + "::RandomDataSource::reinitialize"], BOUND_SEEDS),
+    "next": K("C01.data.next_u64_is_stream", "c01_data_next_u64_is_stream",
+              "forall rng state. next_u64 == rng.next_u64(), next_seed unchanged", [DATA_R + "::RandomDataSource::next_u64"]),
+    "fixed": Kb("C09.data.fixed_same_stream", "c09_data_fixed_same_stream",
+                "any inner state. FixedDataSource::reinitialize returns seed and restarts the stream at seed_from_u64(seed)",
+                [DATA_F + "::FixedDataSource::reinitialize"], BOUND_SEEDS),
+}
+DATA_OVERLAY = ["shuttle-engine/src/scheduler/data/random.rs.append.rs", "shuttle-engine/src/scheduler/data/fixed.rs.append.rs"]
+PROPS["C09"] = {
+    "scope": "DFS step relation, invariant and termination test proved unbounded on the extracted DfsScheduler (V); fixed data stream (K)",
+    "verus_units": ["dfs"],
+    "kani": [DATA["fixed"]],
+    "kani_companions": [],
+    "overlay_files": DATA_OVERLAY,
+    "assumptions": ["A-det: the ids offered after a choice prefix are a function of the prefix (uninterpreted `tree`)",
+                    "A-wrap: iterations, steps < usize::MAX (stated as requires)"],
+    "not_decided": [],
+}
+PROPS["C10"] = {
+    "scope": "data-source seeding chain complete over all seeds (K)",
+    "kani": [DATA["init"], DATA["chain"], DATA["next"]],
+    "overlay_files": DATA_OVERLAY,
+    "assumptions": ["rand_pcg::Pcg64Mcg::seed_from_u64 / next_u64 are the reference for `same stream` (executed symbolically, not specified)"],
+    "not_decided": [],
+}
